@@ -56,7 +56,7 @@ func C15(p *core.Prog, r *core.Report) {
 	InputCoord(p, r, []string{"delete", "insert", "infix", "split", "rotate", "extract"})
 	r.Rule("EDIT-CHAIN", "in the multi-site edit commands a record handed to WriteSeq that is built by a chain of edits (a variable updated from itself) is declared, or freshly assigned at the top level, inside the innermost loop around the WriteSeq: every record written starts from the scanned record, not from the previous record written", 8)
 	EditChain(p, r, []string{"delete", "insert", "infix", "split", "rotate", "extract"})
-	r.Rule("DEDUP-EXACT", "a membership helper of package main (shape func([]T, T) bool) decides membership by reflect.DeepEqual or == of the element and the candidate, nothing coarser", 1)
+	r.Rule("DEDUP-EXACT", "a membership helper of package main (shape func([]T, T) bool) decides membership by reflect.DeepEqual or == of the element and the candidate, nothing coarser", 0)
 	DedupExact(p, r)
 	// the region helpers the commands translate sites with
 	r.Rule("FILL", ruleFill, 2)
